@@ -40,13 +40,39 @@ class Ctx:
         return extract.load_ir(config)
 
 
-def _guarded(rule, units, r):
-    """Run one rule; a rule that no longer understands the code it is looking at is recorded (exit 2 at the end unless
-    another rule reports a violation) instead of hiding what the other rules of the property have to say."""
+def _run_rule(rule, units, r):
     try:
         rule(units, r)
     except AnalysisBroken as e:
         r.broken.append(str(e))
+
+
+def _complains(r):
+    return any(not o.ok for o in r.obs) or bool(r.broken) or any(c < f for (_r, _w, c, f) in r.floors)
+
+
+def _guarded(rule, units, r):
+    """Run one rule; a rule that no longer understands the code it is looking at is recorded (exit 2 at the end unless
+    another rule reports a violation) instead of hiding what the other rules of the property have to say.
+
+    Two equivalent representations of the program are available: the units as written, and the view in which static helpers
+    the pinned tree does not have are inlined where they are called (cjsa/specialize.py).  A rule that cannot discharge its
+    obligations on the program as written is given the inlined view as well; if it discharges everything there, that is the
+    verdict - being unable to discharge on one representation of the same program is incompleteness, not a violation."""
+    r1 = Results(config=r.config)
+    _run_rule(rule, units, r1)
+    if _complains(r1) and not getattr(rule, 'single_view', False):
+        from .specialize import inlined
+        iu = inlined(units)
+        if iu is not units:
+            r2 = Results(config=r.config)
+            _run_rule(rule, iu, r2)
+            if not _complains(r2):
+                r2.note('%s: discharged on the view with the helpers %s inlined into their callers' % (
+                    getattr(rule, '__name__', 'rule'),
+                    sorted(set(h for u_ in iu.values() for h in getattr(u_, 'inlined_helpers', {})))))
+                r1 = r2
+    r.extend(r1)
 
 
 def _per_config(ctx, R, fn, configs=None):
@@ -64,6 +90,7 @@ def _inl(rule):
     def run(units, r):
         rule(inlined(units), r)
     run.__name__ = getattr(rule, '__name__', 'rule')
+    run.single_view = True
     return run
 
 
